@@ -6,6 +6,8 @@ import (
 	"context"
 	"fmt"
 	"path/filepath"
+	"sort"
+	"strings"
 	"sync"
 	"time"
 
@@ -229,4 +231,102 @@ func Dump(k kv.KV) ([]DumpEntry, error) {
 		res = append(res, DumpEntry{Key: it.Key(), Raw: append([]byte{}, v...)})
 	}
 	return res, nil
+}
+
+// CanonicalDump returns every key of a replica database except the node-local term keys, with values in a
+// form that is comparable across replicas: notification batches (proto maps) are decoded and rendered with
+// sorted keys, everything else is kept byte-exact.
+func CanonicalDump(k kv.KV) (map[string]string, error) {
+	d, err := Dump(k)
+	if err != nil {
+		return nil, err
+	}
+	res := map[string]string{}
+	for _, e := range d {
+		switch {
+		case e.Key == "__oxia/term" || e.Key == "__oxia/term-options":
+			continue
+		case strings.HasPrefix(e.Key, "__oxia/notifications/"):
+			// the value is stored through the storage-entry layer or raw depending on the writer; decode the batch
+			nb := &proto.NotificationBatch{}
+			if err := nb.UnmarshalVT(e.Raw); err != nil {
+				res[e.Key] = "undecodable:" + fmt.Sprintf("%x", e.Raw)
+				continue
+			}
+			keys := make([]string, 0, len(nb.Notifications))
+			for nk := range nb.Notifications {
+				keys = append(keys, nk)
+			}
+			sort.Strings(keys)
+			var sb strings.Builder
+			fmt.Fprintf(&sb, "shard=%d offset=%d ts=%d", nb.Shard, nb.Offset, nb.Timestamp)
+			for _, nk := range keys {
+				n := nb.Notifications[nk]
+				fmt.Fprintf(&sb, " %q:%v", nk, n.Type)
+				if n.VersionId != nil {
+					fmt.Fprintf(&sb, ":v%d", *n.VersionId)
+				}
+				if n.KeyRangeLast != nil {
+					fmt.Fprintf(&sb, ":end=%q", *n.KeyRangeLast)
+				}
+			}
+			res[e.Key] = sb.String()
+		default:
+			res[e.Key] = fmt.Sprintf("%x", e.Raw)
+		}
+	}
+	return res, nil
+}
+
+// DiffLimit bounds the number of differences DiffDumps lists.
+var DiffLimit = 4
+
+// DiffDumps describes the first differences between two canonical dumps ("" when equal).
+func DiffDumps(a, b map[string]string) string {
+	var diffs []string
+	keys := map[string]bool{}
+	for k := range a {
+		keys[k] = true
+	}
+	for k := range b {
+		keys[k] = true
+	}
+	sorted := make([]string, 0, len(keys))
+	for k := range keys {
+		sorted = append(sorted, k)
+	}
+	sort.Strings(sorted)
+	for _, k := range sorted {
+		va, oka := a[k]
+		vb, okb := b[k]
+		switch {
+		case !oka:
+			diffs = append(diffs, fmt.Sprintf("key %q only in the second", k))
+		case !okb:
+			diffs = append(diffs, fmt.Sprintf("key %q only in the first", k))
+		case va != vb:
+			diffs = append(diffs, fmt.Sprintf("key %q: %s vs %s", k, DescribeValue(k, va), DescribeValue(k, vb)))
+		}
+		if len(diffs) >= DiffLimit {
+			break
+		}
+	}
+	return strings.Join(diffs, "; ")
+}
+
+// DescribeValue renders a canonical value for humans: storage entries are decoded.
+func DescribeValue(key, v string) string {
+	if strings.HasPrefix(v, "shard=") || strings.HasPrefix(v, "undecodable:") {
+		return v
+	}
+	raw := make([]byte, len(v)/2)
+	if _, err := fmt.Sscanf(v, "%x", &raw); err != nil {
+		return v
+	}
+	se := &proto.StorageEntry{}
+	if err := se.UnmarshalVT(raw); err != nil || strings.HasPrefix(key, "__oxia/") && !strings.HasPrefix(key, "__oxia/session/") {
+		return fmt.Sprintf("%q", raw)
+	}
+	return fmt.Sprintf("{value=%q version=%d mod=%d created=%d modified=%d session=%v identity=%v indexes=%d}", se.Value, se.VersionId, se.ModificationsCount,
+		se.CreationTimestamp, se.ModificationTimestamp, se.SessionId, se.ClientIdentity, len(se.SecondaryIndexes))
 }
